@@ -489,9 +489,13 @@ def _evaluate(case, o: Oracle, tab: L.Table, m: Mat, eff: int, tname: str) -> No
 
     # ------------------------------------------------------------------ merge (nxpimage bootable-image merge)
     bimg = data = None
-    with o.spsdk("merge", "load_from_config"):
+    BootableImage = MemoryType = None
+    with o.spsdk("merge", "import"):
         from spsdk.image.bootable_image.bimg import BootableImage
-
+        from spsdk.image.mem_type import MemoryType
+    if BootableImage is None:
+        return
+    with o.spsdk("merge", "load_from_config"):
         bimg = BootableImage.load_from_config(dict(m.cfg), search_paths=[m.dir])
     if bimg is None and isinstance(req, str):
         # the name form was refused (recorded above); the remaining oracles are evaluated with the same offset as a number
@@ -548,9 +552,6 @@ def _evaluate(case, o: Oracle, tab: L.Table, m: Mat, eff: int, tname: str) -> No
     # ------------------------------------------------------------------ (d) parse (nxpimage bootable-image parse)
     if eff != 0 and eff not in tab.init_candidates():
         return  # an image starting at another segment is not one parse() is documented to locate
-    from spsdk.image.bootable_image.bimg import BootableImage
-    from spsdk.image.mem_type import MemoryType
-
     rev_arg = "latest" if case.get("rev_latest") else rev
     expect = {}
     for n in present:
@@ -688,7 +689,8 @@ def _layout_strategy():
         for name in tab.names:
             if name in L.APP_SEGMENTS:
                 if name == "secondary_image_container_set":
-                    present = draw(st.integers(0, 3)) > 0
+                    # without its predecessor the floating container lands on the predecessor's offset: not a distinct input
+                    present = "primary_image_container_set" in segs and draw(st.integers(0, 3)) > 0
                 else:
                     present = not (can_skip_app and len(tab.names) > 1 and draw(st.integers(0, 11)) == 0)
                 if present:
